@@ -501,7 +501,26 @@ impl Checker {
                 } else {
                     "C03"
                 };
-                sim.violate(prop, "sync_not_caught_up", detail);
+                // is the client waiting for a matched block that is not on its chain any more?
+                let mut clause = "sync_not_caught_up";
+                if self.c04.from_genesis_requests >= 3 {
+                    clause = "long_fork_recheck_repeats_without_abort";
+                }
+                {
+                    let c = sim.client.as_ref().unwrap();
+                    let (_, tip) = c.storage.get_last_state();
+                    if let (Some((_, _, blocks)), Some(path)) = (
+                        c.storage.get_earliest_matched_blocks(),
+                        refidx::canonical_path(&sim.world, &tip.calc_header_hash()),
+                    ) {
+                        let on_chain: std::collections::HashSet<Byte32> =
+                            path.iter().map(|id| sim.world.blocks[*id].hash()).collect();
+                        if blocks.iter().any(|(h, _)| !on_chain.contains(h)) {
+                            clause = "matched_record_spanning_fork_keeps_abandoned_hashes";
+                        }
+                    }
+                }
+                sim.violate(prop, clause, detail);
             }
         }
         crate::oracle2::c16_at_end(self, sim);
@@ -759,6 +778,14 @@ impl Checker {
                         format!("reported_height_but_{}", clause)
                     };
                     sim.violate("C09", &c, format!("[{}] {}", when, detail));
+                } else if prop == "C04" && !self.c04.unnoticed.is_empty() {
+                    let (c4, fork) = self.c04.unnoticed.last().cloned().unwrap();
+                    sim.violate(
+                        "C04",
+                        &c4,
+                        format!("fork point #{} went unnoticed; index audit [{}]: {}", fork, when, detail),
+                    );
+                    sim.taint = Some(format!("C04/{}", c4));
                 } else {
                     sim.violate(prop, &clause, format!("[{}] {}", when, detail));
                 }
